@@ -34,6 +34,20 @@ dyn     every (system, bath, construction path, RWA reference, time step) x EVER
         not removable by a change of the site phases.  Clauses with a reference:
         closed-system/* (expm of the complex H), trace/*, hermiticity/*.
 
+        DEEP / FAST sub-product ("deep": 1): the resolution number of the time axis
+          nu = dt * Dmax-level decay = dt * D * max_k(1/tau_k)
+        (time step x decay rate of the fastest auxiliary operator) runs over (0, NU_MAX] and
+        CROSSES 1: fast baths (tau 10..30 fs) x time steps {1, 2(, 3)} fs x depth alphabets
+        up to 16 (20), filtered by nu <= NU_MAX (stability interval of the declared Taylor-4
+        step on the negative real axis is 2.785; beyond it the explicit integrator diverges on
+        the unchanged tree - a discretisation limit, not claimed).  Same oracles: analytic/*
+        (monomers, uncoupled dimers; the result has to converge AND STAY converged when the
+        depth grows), closed-system/* (coupled dimer / trimer with lambda = 0: exact at every
+        depth), trace/*, hermiticity/*.  In these sequences the truncation error falls below
+        the time-discretisation error of the integrator (<= 8.1e-8 dt^4, independent of the
+        depth), so "never increasing" is demanded above DEEP_FLOOR_C * dt^4 instead of the
+        rounding floor.
+
 hist    REQUEST HISTORIES on ONE open-system object through the builder accessors:
         every ordered pair and triple of depths of the depth alphabet x every accessor
         word over {h: get_KTHierarchy(d), p: get_KTHierarchyPropagator(d)} x system
@@ -110,6 +124,13 @@ KAPPA_MAX = 1.5
 TOL_OPTICAL = 5e-3
 TOL_INTERSITE = 1.75e-2
 TOL_POPULATION = 5e-3
+# deep / fast sub-product: resolution number nu = dt * D * max(1/tau) of the alphabet and the
+# class Q floor of the monotone clause there (time-discretisation error of the Taylor-4 step;
+# calibration on the unchanged tree: the largest error that exceeded its predecessor in a
+# depth sequence is 8.1e-8 * dt^4 (thorough; 0 in the quick alphabet), see evidence "deep";
+# smallest effect of a change that mis-steps time once nu > 1: 5e-2)
+NU_MAX = 2.5
+DEEP_FLOOR_C = 5.0e-7
 BATH_GUARD_RTOL = 1e-5  # library uses CODATA-2014 constants: 1e-6 relative allowed
 
 HT = "OverdampedBrownian-HighTemperature"
@@ -383,6 +404,10 @@ def eval_dyn(case):
     analytic_applies = (not coupled) and (not all_zero) and ht
     analytic_skipped = None
     moved = 0.0
+    deep = bool(case.get("deep"))
+    mono_floor = max(MONO_FLOOR, DEEP_FLOOR_C * float(case["dt"]) ** 4) if deep else MONO_FLOOR
+    nu_max = float(case["dt"]) * max(depths) * max(1.0 / float(b["cortime"]) for b in baths)
+    worst_rise = 0.0
 
     for depth in depths:
         pr, hy, ta = _build(case, depth)
@@ -495,7 +520,9 @@ def eval_dyn(case):
             e = errs[g]
             # "converges with increasing depth": never increasing ...
             for i in range(1, len(e)):
-                if e[i] > e[i - 1] and e[i] > MONO_FLOOR:
+                if e[i] > e[i - 1]:
+                    worst_rise = max(worst_rise, e[i])
+                if e[i] > e[i - 1] and e[i] > mono_floor:
                     add("analytic/%s/not-monotone" % g,
                         "state %s: error vs analytic solution grows from depth %d (%.3g) "
                         "to depth %d (%.3g)" % (label, depths[i - 1], e[i - 1], depths[i], e[i]),
@@ -517,13 +544,17 @@ def eval_dyn(case):
             "worst": worst, "errs": errs if analytic_applies else None,
             "amp": amp, "analytic": bool(analytic_applies), "skipped": analytic_skipped,
             "kappa": kappa, "admissible": admissible,
-            "label": label, "lam": lams, "sys": sysname, "dmax": depths[-1]}
+            "label": label, "lam": lams, "sys": sysname, "dmax": depths[-1],
+            "deep": deep, "nu_max": nu_max, "worst_rise": worst_rise,
+            "dt": float(case["dt"])}
     outcome = [sysname, case["energies"], lams, case["via"], case.get("rwa", "blocks"),
                case["dt"], label, _r(moved, 4), digest]
     if case.get("jphase"):
         outcome.append(case["jphase"])
     if uctx:
         outcome.append([uctx.get("h"), uctx.get("p")])
+    if deep:
+        outcome.append(["deep", depths, [b["cortime"] for b in baths], case["nt"]])
     return {"nontrivial": nontrivial, "outcome": outcome, "violations": viol,
             "n": len(depths) - 1, "info": info}
 
@@ -932,15 +963,56 @@ def index_cases(tier):
 def dyn_cases(tier):
     out = []
 
-    def add(energies, J, bath, via, rwa, nt, dt, depths, e0=0.0, jphase=0):
+    def add(energies, J, bath, via, rwa, nt, dt, depths, e0=0.0, jphase=0, deep=False):
         N = len(energies) + 1
+        if deep:
+            # admissible resolution numbers only (see NU_MAX)
+            gmax = max(1.0 / float(b["cortime"]) for b in _bath_list(bath, len(energies)))
+            depths = [d for d in depths if dt * d * gmax <= NU_MAX]
+            if len(depths) < 2:
+                return
         for s in range(N * N):
             c = {"sec": "dyn", "energies": energies, "J": J, "bath": bath,
                  "via": via, "rwa": rwa, "nt": nt, "dt": dt, "state": s,
                  "depths": depths, "e0": e0}
             if jphase:
                 c["jphase"] = jphase
+            if deep:
+                c["deep"] = 1
             out.append(c)
+
+    def add_deep():
+        """fast baths x time steps x deep hierarchies: nu = dt*D/tau crosses 1"""
+        dim = [E0, E0 + 200.0]
+        if tier == "quick":
+            for tau in (10.0, 30.0):
+                for nt, dt in ((60, 1.0), (30, 2.0)):
+                    add([E0], None, _bath(60.0, tau), "direct", "blocks", nt, dt,
+                        [0, 4, 8, 12, 16], deep=True)
+            for nt, dt in ((20, 1.0), (10, 2.0)):
+                add(dim, _J(2, 100.0), _bath(0.0, 10.0), "agg", "blocks", nt, dt, [0, 6, 12],
+                    deep=True)
+            return
+        DD = [0, 2, 4, 6, 8, 10, 11, 12, 14, 16, 20]
+        steps = ((150, 1.0), (75, 2.0), (50, 3.0))
+        for tau in (10.0, 20.0, 30.0):
+            for nt, dt in steps:
+                for lam in (30.0, 60.0):
+                    for via in ("agg", "direct"):
+                        add([E0], None, _bath(lam, tau), via, "blocks", nt, dt, DD, deep=True)
+        mixedf = [_bath(60.0, 10.0), _bath(30.0, 20.0)]
+        for nt, dt in ((60, 1.0), (30, 2.0)):
+            for b in (_bath(0.0, 10.0), _bath(60.0, 10.0), _bath(60.0, 30.0), mixedf):
+                # uncoupled: analytic clause incl. the inter-site coherence; coupled: closed
+                # system (lambda = 0), trace / Hermiticity
+                for J in (0.0, 100.0):
+                    add(dim, _J(2, J), b, "agg", "blocks", nt, dt, [0, 2, 4, 6, 8, 10, 12],
+                        deep=True)
+            add(dim, _J(2, 100.0), _bath(0.0, 10.0), "direct", "blocks", nt, dt, [0, 11, 16],
+                deep=True)
+        for nt, dt in ((12, 1.0), (6, 2.0)):
+            add([E0, E0 + 200.0, E0 - 100.0], _J(3, 100.0), _bath(0.0, 10.0), "direct", "blocks",
+                nt, dt, [0, 5, 11], deep=True)
 
     ring3 = systems.full_J(3, [100.0])
     en3 = [E0, E0 + 200.0, E0 - 100.0]
@@ -975,6 +1047,7 @@ def dyn_cases(tier):
                     dd, jphase=jph)
             for lam, dd in ((0.0, [0, 2]), (30.0, [0, 2])):
                 add(en3, ring3, _bath(lam), "direct", "blocks", 50, 2.0, dd, jphase=jph)
+        add_deep()
         return out
     # ------------------------------ thorough ------------------------------------
     D = list(range(0, 7))
@@ -1023,6 +1096,7 @@ def dyn_cases(tier):
         # ground state off zero
         add([E0 + 300.0, E0 + 500.0], _J(2, 100.0), _bath(0), "direct", "blocks", 200, 1.0,
             [0, 2], e0=300.0, jphase=jph)
+    add_deep()
     return out
 
 
@@ -1209,6 +1283,13 @@ def run(run):
         "represents exactly (OverdampedBrownian-HighTemperature); a guard compares the attached "
         "C(t) samples with lam(2kT - i/tau)exp(-t/tau) (1e-5 relative: unit constants)",
         "monotone convergence is demanded only above %.0e (rounding floor)" % MONO_FLOOR,
+        "deep/fast sub-product: once the truncation error of the hierarchy is below the "
+        "time-discretisation error of the Taylor-%d step (observed <= 8.1e-8 dt^4, independent "
+        "of the depth) the error sequence is flat up to that error; monotone convergence is "
+        "demanded above %g dt^4 there.  Depths with dt * D * max(1/tau) > %g are outside "
+        "the alphabet: the explicit Taylor-%d step is unstable for dt*Gamma > 2.785 (the "
+        "unchanged tree diverges there); the choice of a resolving time step is the caller's"
+        % (TAYLOR_ORDER, DEEP_FLOOR_C, NU_MAX, TAYLOR_ORDER),
         "every propagation runs on a freshly built hierarchy (isolation from C15); units are "
         "reset after Aggregate.build (isolation from C05)",
         "hist: the reference of a request for depth d is KTHierarchy(ham, sbi, d) + "
@@ -1257,6 +1338,15 @@ def run(run):
                 "0; (30,50,300); (60,50,300); (30,30,300); (30,50,77); mixed per-site; "
                 "full OB type (trace/Hermiticity only)",
                 "time": "150 x 1 fs" if q else "200 x 1 fs, 100 x 2 fs",
+                "deep/fast sub-product": (
+                    "monomer lambda 60 x tau {10,30} x (60 x 1 fs, 30 x 2 fs) x depths "
+                    "{0,4,8,12,16}; coupled dimer lambda 0, tau 10 x (20 x 1 fs, 10 x 2 fs) x "
+                    "depths {0,6,12}" if q else
+                    "monomer lambda {30,60} x tau {10,20,30} x (150 x 1, 75 x 2, 50 x 3 fs) x "
+                    "2 paths x depths {0,2,..,10,11,12,14,16,20}; dimers J {0,100} x baths "
+                    "{(0,10),(60,10),(60,30),mixed} x (60 x 1, 30 x 2 fs) x depths 0..12 step "
+                    "2; coupled dimer lambda 0 depths {0,11,16}; coupled trimer lambda 0 "
+                    "depths {0,5,11}") + "; depths with dt*D*max(1/tau) > %g excluded" % NU_MAX,
                 "initial states": "all N^2 members of the spanning set"},
         "ctx": {"units": CTX_UNITS[run.tier],
                 "contexts (hierarchy built, propagator built)":
@@ -1277,7 +1367,9 @@ def run(run):
                             "earlier calls, N^2 spanning states in the last"},
         "tolerances": {"R": RTOL, "T": "2 x Taylor-%d bound + R" % TAYLOR_ORDER,
                        "Q_optical": TOL_OPTICAL, "Q_intersite": TOL_INTERSITE,
-                       "Q_population": TOL_POPULATION, "Q_admissible_kappa_max": KAPPA_MAX}}
+                       "Q_population": TOL_POPULATION, "Q_admissible_kappa_max": KAPPA_MAX,
+                       "Q_deep_monotone_floor": "%g * dt^4" % DEEP_FLOOR_C,
+                       "deep_resolution_number_max": NU_MAX}}
     ic = index_cases(run.tier)
     dc = dyn_cases(run.tier)
     run_grid(run, ic, eval_case, section="index")
@@ -1324,6 +1416,15 @@ def run(run):
                     n_inadm += 1
         if inf.get("skipped"):
             nskip[inf["skipped"]] = nskip.get(inf["skipped"], 0) + 1
+    dinf = [i for i in infos if i.get("sec") == "dyn" and i.get("deep")]
+    run.note(deep={
+        "cases": len(dinf),
+        "cases_with_resolution_number_above_1": sum(1 for i in dinf if i["nu_max"] > 1.0),
+        "largest_resolution_number": max([i["nu_max"] for i in dinf] or [0.0]),
+        "analytic_cases": sum(1 for i in dinf if i["analytic"] and i["errs"]),
+        "closed_system_cases": sum(1 for i in dinf if all(l == 0.0 for l in i["lam"])),
+        "worst_rise_over_dt4 (error that exceeded its predecessor; floor %g)" % DEEP_FLOOR_C:
+            max([i["worst_rise"] / i["dt"] ** 4 for i in dinf] or [0.0])})
     # ---- units context of the construction steps -------------------------------------
     xc = ctx_cases(run.tier)
     order = sorted(range(len(xc)), key=lambda i: -(len(xc[i]["energies"]) * 10
